@@ -18,8 +18,8 @@ EXPLANATION = ('Every comparison, select and mask operation is interpreted on sy
                'BVec3/BVec4 are checked against the same boolean specification they are observationally identical.  All functions returning a '
                'SIMD mask are shown to return canonical lanes, which discharges the abstraction.')
 
-CONFIGS_QUICK = ['sse2', 'sse2-fma', 'scalar']
-CONFIGS_THOROUGH = ['sse2', 'sse2-fma', 'scalar', 'coresimd', 'neon', 'wasm32']
+CONFIGS_QUICK = ['sse2', 'sse2-fma', 'sse41', 'scalar', 'coresimd', 'neon', 'wasm32']
+CONFIGS_THOROUGH = ['sse2', 'sse2-fma', 'sse41', 'scalar', 'coresimd', 'neon', 'wasm32']
 CMP = {'cmpeq': 'eq', 'cmpne': 'ne', 'cmplt': 'lt', 'cmple': 'le', 'cmpgt': 'gt', 'cmpge': 'ge'}
 BOOLOPS = {'bitand': tm.b_and, 'bitor': tm.b_or, 'bitxor': tm.b_xor, 'bitand_assign': tm.b_and, 'bitor_assign': tm.b_or, 'bitxor_assign': tm.b_xor}
 
